@@ -14,15 +14,19 @@ pub struct LiqRef {
 }
 
 /// the liquidation margin ratio as the statement defines it, from pre-state queries
-pub fn ratio_liq(preq: &PreQ, margin: U, f: i128, spot_price: U, d: U, twap_ref: Option<(U, i128)>) -> Option<LiqRef> {
+pub fn ratio_liq(preq: &PreQ, margin: U, f: i128, spot_price: U, d: U, twap_ref: Option<Option<(U, i128)>>) -> Option<LiqRef> {
     let sn = pq_field_u(preq, "pnl_spot", "position_notional")?;
     let sp = pq_field_i(preq, "pnl_spot", "unrealized_pnl")?;
-    // the 15-minute TWAP figures: the harness's own when it could compute them, else the engine's query
-    let (tn, tp) = match twap_ref {
+    // the 15-minute TWAP figures: the harness's own when it could compute them (Some(None): unbounded, the spot
+    // valuation is the smaller one), else the engine's query
+    let twap = match twap_ref {
         Some(x) => x,
-        None => (pq_field_u(preq, "pnl_twap", "position_notional")?, pq_field_i(preq, "pnl_twap", "unrealized_pnl")?),
+        None => Some((pq_field_u(preq, "pnl_twap", "position_notional")?, pq_field_i(preq, "pnl_twap", "unrealized_pnl")?)),
     };
-    let (mut which, n, pl) = if sp.unsigned_abs() > tp.unsigned_abs() { ("twap", tn, tp) } else { ("spot", sn, sp) };
+    let (mut which, n, pl) = match twap {
+        Some((tn, tp)) if sp.unsigned_abs() > tp.unsigned_abs() => ("twap", tn, tp),
+        _ => ("spot", sn, sp),
+    };
     let mut r = ratio(margin, pl, f, n, d)?;
     let mut over = false;
     if let Some(op) = pq_u(preq, "underlying") {
@@ -71,9 +75,15 @@ pub fn step(ctx: &Ctx, w: &World, ev: &mut Ev) {
         Some(x) => x,
         None => return,
     };
-    let twap_ref = ctx.model.prices.get(v).and_then(|recs| twap_output_ref(recs, pos.dir, pos.size.unsigned_abs(), 900, ctx.post.time, ctx.pre.vamms[v].decimals.max(1))).and_then(|tn| pnl(pos.dir, tn, pos.notional).map(|tp| (tn, tp)));
+    let own = ctx.model.prices.get(v).map(|recs| twap_output_ref(recs, pos.dir, pos.size.unsigned_abs(), 900, ctx.post.time, ctx.pre.vamms[v].decimals.max(1))).unwrap_or(TwapRef::Unknown);
+    let twap_ref: Option<Option<(U, i128)>> = match own {
+        TwapRef::Value(tn) => pnl(pos.dir, tn, pos.notional).map(|tp| Some((tn, tp))),
+        TwapRef::Unbounded => Some(None),
+        TwapRef::Unknown => None,
+    };
     match (&twap_ref, pq_field_u(ctx.preq, "pnl_twap", "position_notional")) {
-        (Some((tn, _)), Some(en)) => ev.count(if *tn == en { "twap15_reference_equals_engine_figure" } else { "twap15_reference_differs_from_engine_figure" }),
+        (Some(Some((tn, _))), Some(en)) => ev.count(if *tn == en { "twap15_reference_equals_engine_figure" } else { "twap15_reference_differs_from_engine_figure" }),
+        (Some(None), _) => ev.count("twap15_unbounded_spot_binding"),
         (None, _) => ev.count("twap15_reference_unavailable"),
         _ => {}
     }
